@@ -4,7 +4,9 @@ import (
 	"fmt"
 	"go/token"
 	"go/types"
+	"regexp"
 	"sort"
+	"strconv"
 	"strings"
 )
 
@@ -146,6 +148,7 @@ func checkC01(c *Check) {
 				}
 			}
 		}
+		g.arraySizesFromSchema(c)
 		// decoded temporaries that are stored into a collection must be fresh per iteration
 		for _, fam := range g.families() {
 			for _, role := range []string{"ReadTL1", "ReadTL1Boxed"} {
@@ -189,6 +192,7 @@ func checkC01(c *Check) {
 	c.Floor("tl1-write-length-guard", 10)
 	c.Floor("tl1-write-error-propagated", 50)
 	c.Floor("tl1-reader-fresh-temporaries", 10)
+	c.Floor("tl1-array-size-from-schema", 20)
 }
 
 func indent(s, ind string) string {
@@ -245,6 +249,9 @@ func (g *genCtx) freshTemporaries(c *Check, rule, construct string, fi *FuncInfo
 						return
 					}
 					for _, loc := range localRx.FindAllString(strings.Join(a.RHS, " "), -1) {
+						if strings.Contains(a.LHS[0], "["+loc+"]") {
+							continue // the loop index itself
+						}
 						t := ""
 						_ = t
 						c.Ob(rule, construct+"/"+stripLocalNo(loc), declared[loc], posStr(g.co.Fset, a.Pos),
@@ -263,4 +270,143 @@ func stripLocalNo(l string) string {
 		return l[i+1:]
 	}
 	return l
+}
+
+var multiplierRx = regexp.MustCompile(`^(?:[A-Za-z_][A-Za-z0-9_]*\.\d+\?)?([A-Za-z_][A-Za-z0-9_]*)\*\[`)
+
+// jsonKeyFields maps the JSON keys of a struct's ReadJSONGeneral to the receiver fields they fill.
+func (g *genCtx) jsonKeyFields(fi *FuncInfo) map[string]string {
+	out := map[string]string{}
+	if fi == nil {
+		return out
+	}
+	ir := g.ir(fi)
+	walkBlock(ir.Body, nil, func(n Node, _ []Guard) {
+		sw, ok := n.(*SwitchN)
+		if !ok {
+			return
+		}
+		for _, cs := range sw.Cases {
+			if cs.Default || len(cs.Vals) != 1 || !strings.HasPrefix(cs.Vals[0], `"`) {
+				continue
+			}
+			key, err := strconv.Unquote(cs.Vals[0])
+			if err != nil {
+				continue
+			}
+			// the field is named by a `propXPresented`-style flag only for raw fields; prefer operands
+			walkBlock(cs.Body, nil, func(m Node, _ []Guard) {
+				if call, ok := m.(*CallN); ok {
+					for _, o := range g.operandsOfCall(call) {
+						if f := fieldOf(o); f != "" && out[key] == "" {
+							out[key] = f
+						}
+					}
+				}
+			})
+		}
+	})
+	return out
+}
+
+// arraySizesFromSchema: for every field written `name:N*[T]` in the TL1 schema text, the generated TL1
+// reader and writer pass N (a sibling field or a template parameter) as the FIRST nat argument of the
+// array codec of that field. The schema text is read by the independent scanner (tlscan.go).
+func (g *genCtx) arraySizesFromSchema(c *Check) {
+	if g.co.InRepo {
+		return
+	}
+	byTLName := map[string]map[string]*FuncInfo{}
+	for _, fam := range g.families() {
+		roles := g.byFam[fam]
+		if m := roles["TLName"]; m != nil {
+			if v, ok := g.constReturn(m); ok {
+				if n, err := strconv.Unquote(v); err == nil {
+					if _, dup := byTLName[n]; !dup || !strings.HasSuffix(fam, "Bytes") {
+						byTLName[n] = roles
+					}
+				}
+			}
+		}
+	}
+	for _, sch := range g.co.Spec.Schemas {
+		if !strings.HasSuffix(sch, ".tl") {
+			continue
+		}
+		path := sch
+		if !strings.HasPrefix(path, "/") {
+			path = repoDir + "/" + sch
+		}
+		decls, err := scanTL1(path)
+		if err != nil {
+			c.Undecided("tl1-array-size-from-schema", g.co.Spec.Name, path, err.Error())
+			continue
+		}
+		for _, d := range decls {
+			roles := byTLName[d.Name]
+			if roles == nil {
+				continue
+			}
+			var keys map[string]string
+			for _, f := range d.Fields {
+				m := multiplierRx.FindStringSubmatch(f.Expr)
+				if m == nil {
+					continue
+				}
+				mult := m[1]
+				if keys == nil {
+					keys = g.jsonKeyFields(roles["ReadJSONGeneral"])
+				}
+				goField := keys[f.Name]
+				if goField == "" {
+					continue
+				}
+				want := "nat:" + mult
+				if mf, ok := keys[mult]; ok {
+					want = "item." + mf
+				} else {
+					// a sibling # field has no array operand; find it among struct fields by JSON key
+					for _, f2 := range d.Fields {
+						if f2.Name == mult {
+							want = "item.?" + mult
+						}
+					}
+				}
+				for _, r := range []struct {
+					role string
+					cfg  *wireCfg
+					dir  string
+				}{{"ReadTL1", tl1ReadCfg, "r"}, {"WriteTL1", tl1WriteCfg, "w"}} {
+					fi := roles[r.role]
+					if fi == nil {
+						continue
+					}
+					w, _ := g.wire(fi, r.cfg, r.dir)
+					var got []string
+					found := false
+					var scan func(l []W)
+					scan = func(l []W) {
+						for _, x := range l {
+							switch x := x.(type) {
+							case *WCall:
+								if x.Operand == "item."+goField {
+									found, got = true, x.Nat
+								}
+							case *WIf:
+								scan(x.Then)
+								scan(x.Else)
+							}
+						}
+					}
+					scan(w)
+					if !found || len(got) == 0 {
+						continue // absent, or instantiated with constant sizes (fixed array)
+					}
+					ok := len(got) >= 1 && (got[0] == want || strings.HasPrefix(want, "item.?") && strings.EqualFold(strings.ReplaceAll(strings.TrimPrefix(got[0], "item."), "_", ""), strings.ReplaceAll(mult, "_", "")))
+					c.Ob("tl1-array-size-from-schema", g.co.Spec.Name+":"+d.Name+"."+f.Name+"/"+r.role, ok, posStr(g.co.Fset, fi.Decl.Pos()),
+						fmt.Sprintf("schema: %s:%s — size is %s; generated nat arguments %v", f.Name, f.Expr, mult, got))
+				}
+			}
+		}
+	}
 }
